@@ -39,7 +39,7 @@ Definition rtok_of (fns : list fnfact) (i : ist) (ch : str) : rtok :=
          | Some f =>
            let args := match simplefn E e with Some (_, a) => a | None => [] end in
            let o := match ff_import f with
-                    | [] => ff_gofn f
+                    | [] => if mem (ff_gofn f) (map snd (k_builtin_funcs E)) then ff_gofn f else s ".." ++ ff_gofn f
                     | imp => decorate_import i imp ++ s "." ++ ff_gofn f
                     end in
            KCall o args ch
